@@ -536,6 +536,7 @@ func (ego *object) MapFloats(function func(float64) any) Object {
 func (ego *object) ForEachAsync(function func(string, any)) Object {
 	var wg sync.WaitGroup
 	step := func(group *sync.WaitGroup, k string, x any) {
+		verifGate("object.ForEachAsync", k)
 		function(k, x)
 		group.Done()
 	}
@@ -553,6 +554,7 @@ func (ego *object) MapAsync(function func(string, any) any) Object {
 	wg.Add(ego.Count())
 	result := NewObject()
 	step := func(group *sync.WaitGroup, k string, x any) {
+		verifGate("object.MapAsync", k)
 		mutex.Lock()
 		result.Set(k, function(k, x))
 		mutex.Unlock()
